@@ -31,8 +31,12 @@ def rand_period(rng, lo=2, hi=60):
         return float(k)
     if mode < 0.6:
         return k + rng.choice([0.5, 0.25, 0.75, 0.125])
-    if mode < 0.8:
+    if mode < 0.75:
         return k + rng.choice([1, 2]) / 3.0
+    if mode < 0.85:
+        # period starts that hit x.5 at a non-dyadic period index (near-ties of the float product)
+        j = rng.choice([3, 5, 6, 7])
+        return (j * k + j // 2 + 0.5) / j
     return k + rng.random()
 
 
